@@ -74,8 +74,8 @@ def run(ctx):
     drv = ctx.build_model('C19', 'ExtractC19.v', 'drv_c19.ml')
     h = ctx.build_harness('c19_sr', 'c19_sr.cpp')
     quick = ctx.tier == 'quick'
-    nseq = 60 if quick else 300
-    nconc = 24 if quick else 150
+    nseq = 60 if quick else 1000
+    nconc = 24 if quick else 500
     work = '%s/c19' % BUILD
     os.makedirs(work, exist_ok=True)
     replay_case = None
@@ -131,8 +131,9 @@ def run(ctx):
                 if not x.startswith('e'):
                     break
                 prev = res[k - 1].split(':')[1].split(',') if k > 0 else ['5']
-                if o[k][0] == 's' and '5' not in prev:
-                    break    # nobody awake to run the carrier task
+                if o[k][0] == 's' and ('5' not in prev or (not el and any(x2 != '5' for x2 in prev))):
+                    break    # the carrier task of a call made from the pool itself could not run (without elasticity it is
+                    #          placed round-robin, possibly on a sleeping worker)
                 if o[k][1:] == 'TN' and any(x2 != '5' for x2 in prev):
                     break
                 keep = k + 1
